@@ -55,10 +55,19 @@ func driveC09(args []string) error {
 		pal, creg [64]color.RGBA
 	}
 	var ctxs []ctxT
-	for k := 0; k < 4; k++ {
+	for k := 0; k < 5; k++ {
 		var c ctxT
 		for i := 0; i < 64; i++ {
 			switch k {
+			case 4:
+				// alpha 0 with non-zero channels everywhere (gradient encodings and other such values): blending two
+				// of them is still the per-channel formula
+				g := ivg.EncodeGradient(uint8(i), uint8(63-i), uint8(i%2), uint8(i%4), uint8(i%7))
+				c.creg[i] = g
+				c.pal[i] = color.RGBA{uint8(3 * i), uint8(255 - i), uint8(i | 0x80), 0}
+				if i%5 == 4 {
+					c.creg[i] = color.RGBA{uint8(i), uint8(2 * i), uint8(i), 0}
+				}
 			case 0:
 				c.pal[i] = color.RGBA{0, 0, 0, 255}
 				c.creg[i] = c.pal[i]
@@ -375,6 +384,35 @@ func driveC09(args []string) error {
 			p[rng.Intn(8)] = gens[names[rng.Intn(len(names))]](rng.Intn(64))
 		}
 		if err := palette(fmt.Sprintf("order/%d", i), p); err != nil {
+			return err
+		}
+	}
+	// uniform palettes (64 equal entries): the zero value of the array type (all transparent), the default, and others
+	for i, u := range []color.RGBA{{}, black, {0xff, 0xff, 0xff, 0xff}, {0x80, 0x80, 0x80, 0x80}, {0x10, 0x20, 0x30, 0x40}, {0x33, 0x88, 0, 0xff}, {1, 2, 3, 0xff}, {0, 0, 0, 1}} {
+		var p [64]color.RGBA
+		for j := range p {
+			p[j] = u
+		}
+		if err := palette(fmt.Sprintf("uniform/%d", i), p); err != nil {
+			return err
+		}
+		// ... and the same with one entry set to the default colour
+		for _, at := range []int{0, 31, 63} {
+			q := p
+			q[at] = black
+			if err := palette(fmt.Sprintf("uniform/%d/black@%d", i, at), q); err != nil {
+				return err
+			}
+		}
+	}
+	// the default palette with a single entry changed, at every index
+	for at := 0; at < 64; at++ {
+		var p [64]color.RGBA
+		for j := range p {
+			p[j] = black
+		}
+		p[at] = []color.RGBA{{}, {0xff, 0xff, 0xff, 0xff}, {0, 0, 0, 0xfe}, {0x12, 0x34, 0x56, 0x78}}[at%4]
+		if err := palette(fmt.Sprintf("single/%d", at), p); err != nil {
 			return err
 		}
 	}
